@@ -4,15 +4,18 @@
 # passes with it, the demonstration fails with it and passes without it.  Prints a JSON summary.
 name=$1; src=$2
 wt=/tmp/confirm_$name
+# extra compiler flags may be given in the first line of the demonstration (// ... -DFOO -std=c++14 ...)
+xf=$(head -1 $src/demo.cpp | grep -o -- '-D[A-Za-z0-9_=]*\|-std=[a-z+0-9]*\|-pthread' | tr '\n' ' ')
+std=-std=c++11; case "$xf" in *-std=*) std= ;; esac
 git -C /repo worktree remove --force $wt >/dev/null 2>&1
 git -C /repo worktree add -q --detach $wt HEAD || exit 2
 cd $wt
-g++ -std=c++11 -I include $src/demo.cpp -o /tmp/confirm_${name}_demo_orig 2>/tmp/confirm_$name.err; c0=$?
+g++ $std $xf -I include $src/demo.cpp -o /tmp/confirm_${name}_demo_orig 2>/tmp/confirm_$name.err; c0=$?
 if [ $c0 = 0 ]; then timeout 60 /tmp/confirm_${name}_demo_orig >/dev/null 2>&1; r0=$?; else r0=compile_error; fi
 git apply $src/patch.diff; ap=$?
 cmake -G Ninja -S . -B _build >/dev/null 2>&1
 suite=$(cmake --build _build 2>&1 | grep -c "Status: SUCCESS")
-g++ -std=c++11 -I include $src/demo.cpp -o /tmp/confirm_${name}_demo_mut 2>>/tmp/confirm_$name.err; c1=$?
+g++ $std $xf -I include $src/demo.cpp -o /tmp/confirm_${name}_demo_mut 2>>/tmp/confirm_$name.err; c1=$?
 if [ $c1 = 0 ]; then timeout 60 /tmp/confirm_${name}_demo_mut >/dev/null 2>&1; r1=$?; else r1=compile_error; fi
 # header regenerated consistently?
 (cd tools && python3 join.py); hdr=$(git status --short include | wc -l); hdr2=$(git diff --quiet HEAD -- include && echo same || echo changed)
